@@ -177,7 +177,7 @@ def classify(case, r):
 
 def main(run, args):
     quick = run.tier == "quick"
-    n = 1500 if quick else 25000
+    n = 1500 if quick else 12000
     pl = vlib.proof_leg(ID, THEOREMS)
     for pr in pl["problems"]:
         vlib.log("proof-leg problem:", pr["kind"], pr["detail"][:400])
